@@ -6,22 +6,26 @@
    (d) parameterised macros: (type, text) of the tokens the real tokenizer produces for `KEY(args)` against
        Model.MacroSubst.param_expand on the real tokenisation of the #define line;
    (e) Hardcode.calc: the text hardcode_parse_calc hands to the evaluator (or its 'Invalid character') against
-       Model.MacroSubst.calc_text. *)
+       Model.MacroSubst.calc_text;
+   (f) a whole Hardcode.repeat* / @lazy body text: the callers' loop over the real hardcode_parse_calc (evaluator
+       replaced by a marker `<text it received>`) against Model.MacroScope.calc_all. *)
 From Coq Require Import ZArith String List Bool Ascii.
-From JMCV Require Import Model.Layout Model.Macro Model.MacroSubst Run.Common Run.C15.
+From JMCV Require Import Model.Layout Model.Macro Model.MacroSubst Model.MacroScope Run.Common Run.C15.
 Import ListNotations.
 Open Scope Z_scope.
 
 Record hcase := mkHCase {
   hc_header : string; hc_envs : list string; hc_ns : string;
-  hc_cf : bool; hc_es : bool; hc_line : Z; hc_col : Z; hc_src : string;
+  hc_cf : bool;
+  hc_nf : bool;      (* the tree lays macro bodies out again (fixes/C16-macro-in-macro-body-adjacency.patch) *)
+  hc_es : bool; hc_line : Z; hc_col : Z; hc_src : string;
   hc_check_end : bool;
   hc_real : option (list (list rtok));
   hc_num : list (string * string)            (* Header().number_macros after parsing the header *)
 }.
 
 Definition hmodel (c : hcase) : result hstate :=
-  parse_header false (s2l (hc_ns c)) (s2l (hc_header c)) (map s2l (hc_envs c)).
+  parse_header false (hc_nf c) (s2l (hc_ns c)) (s2l (hc_header c)) (map s2l (hc_envs c)).
 
 Definition htokens (c : hcase) : result (list (list token)) :=
   match hmodel c with
@@ -79,3 +83,19 @@ Definition ccase_ok (c : ccase) : bool :=
   | _, _ => false
   end.
 Definition cmismatches (l : list ccase) : list nat := bad_indices ccase_ok l.
+
+(* ---- (f) the body of a Hardcode.repeat* / @lazy function: scope of the substitution *)
+Record bcase := mkBCase {
+  bc_num : list (string * string);      (* Header.number_macros, insertion order *)
+  bc_body : string;                     (* the text the callers loop over *)
+  bc_real : option string               (* the text the loop ends with; None = a JMCSyntaxException diagnostic *)
+}.
+Definition ev_marker (t : str) : option str := Some (s2l "<" ++ t ++ s2l ">").
+Definition bcase_ok (c : bcase) : bool :=
+  let body := s2l (bc_body c) in
+  match calc_all ev_marker (map (fun kv => (s2l (fst kv), s2l (snd kv))) (bc_num c)) (S (List.length body)) body, bc_real c with
+  | CText t, Some r => str_eqb t (s2l r)
+  | CFail, None => true
+  | _, _ => false
+  end.
+Definition bmismatches (l : list bcase) : list nat := bad_indices bcase_ok l.
